@@ -303,6 +303,9 @@ def M2M.replace (s : M2M α) (k nk : α) : M2M α :=
      (getSet k s.data).foldl (fun i v => renameIn v k nk i) s.inv⟩
   else s
 
+/-- `list(x.iteritems())` for one side's dict -/
+def iteritems (d : Dict α (List α)) : List (α × α) := d.flatMap fun p => p.2.map fun v => (p.1, v)
+
 inductive M2MOp (α : Type) where
   | add (k v : α)
   | remove (k v : α)
